@@ -517,7 +517,8 @@ func (env *ExecEnv) join(fields ...*field) *field {
 func (env *ExecEnv) ifs() string {
 	if v, set := env.Get("IFS"); set {
 		if v.Value != "" {
-			return v.Value[:1]
+			_, w := utf8.DecodeRuneInString(v.Value)
+			return v.Value[:w]
 		}
 		return ""
 	}
